@@ -581,6 +581,109 @@ def recovery_script(r, idx, fate_vec=None):
     return {"cfg": cfg, "steps": steps, "tag": {"family": "recovery-clean" if clean else "recovery", "idx": idx}}
 
 
+def ackdelay_script(r, idx, fate_vec=None):
+    """A quiet client that only acknowledges: the server's flight is long, parts of it are delayed, lost
+    or repeated, and afterwards the server sends a little now and then - every acknowledgement the
+    client owes (immediately for Initial/Handshake packets, within max_ack_delay for 1-RTT packets)
+    has to come from its own timers, interleaved with the others."""
+    cfg = base_cfg(r, server={"idle_ms": 30000}, client={"idle_ms": 30000, "mtud": False})
+    cfg["sf_size"] = r.choice([1500, 3000, 5000])
+    cfg["new_tokens"] = r.choice([0, 2])
+    if fate_vec is not None:
+        half = len(fate_vec) // 2
+        cfg["fates_c2s"] = ["ok"] * r.choice([0, 1, 2]) + [FATE_MAP[f] for f in fate_vec[:half]]
+        cfg["fates_s2c"] = ["ok"] * r.choice([0, 1, 2]) + [FATE_MAP[f] for f in fate_vec[half:]]
+    else:
+        menu = ["ok", "ok", "ok", "x", "delay:10000", "delay:25000", "delay:40000", "delay:120000", "dup:3000", "dup:40000"]
+        cfg["fates_c2s"] = [r.choice(menu) for _ in range(8)]
+        cfg["fates_s2c"] = [r.choice(menu) for _ in range(10)]
+        if r.random() < 0.6:
+            # the tail of the server's first flight (Handshake data and the first 1-RTT packet in one
+            # datagram) is late: it arrives when the client has long sent what it had to say
+            k = {1500: 2, 3000: 3, 5000: 5}[cfg["sf_size"]]
+            late = r.choice(["delay:40000", "delay:120000", "delay:120000", "delay:300000"])
+            cfg["fates_s2c"] = ["ok"] * (k - 1) + [late] + [r.choice(["ok", "ok", "x", "delay:25000"]) for _ in range(6)]
+            if r.random() < 0.5:
+                cfg["fates_c2s"] = [r.choice(["ok", "ok", "ok", "x"]) for _ in range(6)]
+    steps = [{"do": "connect", "n": 1},
+             {"do": "run_until", "what": "connected", "max_us": 20000000}]
+    sid = 3
+    for k in range(r.choice([1, 2, 4])):
+        steps.append({"do": "op", "n": 0, "c": 0, "op": {"op": "open", "dir": 1}})
+        steps.append({"do": "op", "n": 0, "c": 0, "op": {"op": "write", "id": sid, "len": r.choice([1, 300, 1100, 2500]),
+                                                        "key": _skey(True, sid), "off": 0}})
+        steps.append({"do": "run", "us": r.choice([3000, 12000, 30000, 70000, 200000])})
+        sid += 4
+    steps.append({"do": "run", "us": 1500000})
+    return {"cfg": cfg, "steps": steps, "tag": {"family": "ackdelay", "idx": idx}}
+
+
+def sched_script(r, idx, seq=None):
+    """Several streams with different priorities written to in bursts while the congestion window
+    lets only part of the data out: the order of the STREAM frames is the scheduler's decision.
+    `seq` is a TLC-enumerated operation order (w<i> write, p<i> raise priority, q<i> lower it,
+    f<i> finish, r<i> reset, t let time pass)."""
+    fair = r.random() < 0.6
+    writer = r.choice([1, 1, 0])
+    wcfg = {"idle_ms": 30000, "cc": r.choice(["fixed:2400", "fixed:3600", "fixed:12000", "newreno"]), "send_fairness": fair,
+            "send_window": 10000000, "mtud": False}
+    rcfg = {"idle_ms": 30000, "recv_window": 10000000, "stream_recv_window": 2000000, "max_bidi": 100, "max_uni": 100}
+    cfg = base_cfg(r, server=(wcfg if writer == 0 else rcfg), client=(wcfg if writer == 1 else rcfg))
+    if writer == 0:
+        cfg["client"].update({"max_bidi": 100, "max_uni": 100})
+    cfg["latency_us"] = r.choice([1000, 10000, 40000])
+    if r.random() < 0.3:
+        cfg["max_datagrams"] = r.choice([1, 2, 4])
+    steps = [{"do": "connect", "n": 1}, {"do": "run_until", "what": "connected", "max_us": 20000000},
+             {"do": "run", "us": 300000}]
+    k = r.choice([2, 3, 3, 4, 6])
+    ids = []
+    nxt = {0: 0 if writer == 1 else 1, 1: 2 if writer == 1 else 3}
+    for _ in range(k):
+        d = r.choice([0, 1])
+        ids.append(nxt[d])
+        nxt[d] += 4
+        steps.append({"do": "op", "n": writer, "c": 0, "op": {"op": "open", "dir": d}})
+    offs = {i: 0 for i in ids}
+    prios = {i: 0 for i in ids}
+    dead = set()
+
+    def op(o):
+        steps.append({"do": "op", "n": writer, "c": 0, "op": o})
+
+    def write(i, ln):
+        op({"op": "write", "id": i, "len": ln, "key": _skey(writer == 0, i), "off": "auto"})
+
+    if seq is None:
+        seq = []
+        for _ in range(r.choice([10, 25, 40])):
+            x = r.random()
+            i = r.randrange(k)
+            seq.append(("w%d" if x < 0.5 else "p%d" if x < 0.62 else "q%d" if x < 0.7 else "f%d" if x < 0.76 else "r%d" if x < 0.79 else "t") % i
+                       if x < 0.79 else "t")
+    for sym in seq:
+        if sym == "t":
+            steps.append({"do": "run", "us": r.choice([0, 300, 2000, 11000, 50000, 200000])})
+            continue
+        i = ids[int(sym[1:]) % k]
+        if sym[0] == "w":
+            if i not in dead:
+                write(i, r.choice([1, 200, 1300, 1300, 4000, 20000]))
+        elif sym[0] in "pq":
+            prios[i] += 1 if sym[0] == "p" else -1
+            op({"op": "set_priority", "id": i, "prio": prios[i]})
+        elif sym[0] == "f":
+            if i not in dead:
+                op({"op": "finish", "id": i})
+                dead.add(i)
+        elif sym[0] == "r":
+            if i not in dead:
+                op({"op": "reset", "id": i, "code": 7})
+                dead.add(i)
+    steps.append({"do": "run", "us": 3000000})
+    return {"cfg": cfg, "steps": steps, "tag": {"family": "sched", "idx": idx, "fair": fair}}
+
+
 # ------------------------------------------------------------------------------------------------
 # C11
 
